@@ -7,7 +7,10 @@ type with any `add`, any order relation on scores, any sorting routine that retu
 permutation (Go's `slices.SortFunc` is unstable), any stored document, any select and sort list.
 
 Where the documented behaviour holds only under a hypothesis, the hypothesis is stated and a witness
-shows that it cannot be dropped (`…_witness`): those witnesses are the findings of notes/C06.md.
+shows that it cannot be dropped (`…_witness`).  Three such hypotheses of the pinned tree (two or more
+sub-queries for the rank order; no select path through a scalar; one `reflect.Kind` per sort key) were
+defects; the repository repairs removed them and the model follows the repaired code:
+`C06_rank_order`, `C06_select` / `C06_select_total`, `C06_cmp_numeric` carry no such hypothesis.
 -/
 import SemaModel.C06.Lemmas
 namespace Sema.C06
@@ -108,16 +111,102 @@ theorem C06_merge {S : Type} (add : S → S → S) (le : S → S → Prop)
 theorem C06_merge_single {S : Type} (add : S → S → S) (sorter : List (Res S) → List (Res S)) (isOr : Bool)
     (one : SubResult S) : searchParallel add sorter isOr [one] = one := rfl
 
-/-- **the hypothesis `subs.length ≠ 1` is needed for the order clause**: a single ranking sub-query
-whose weight is negative comes back in its own order (best score first), which is the lowest hybrid
-score first — whatever sorting routine `searchParallel` uses. -/
-theorem C06_single_sub_witness :
-    ∃ leaf : SubResult Int, ∀ sorter : List (Res Int) → List (Res Int),
-      ¬ (searchParallel (· + ·) sorter true [leaf]).res.Pairwise (fun a b => b.hybrid ≤ a.hybrid) := by
-  refine ⟨⟨[1, 2], [⟨1, -2⟩, ⟨2, -1⟩]⟩, ?_⟩
-  intro sorter
-  rw [C06_merge_single]
-  simp
+/-- the order the documentation asks of two rows, the first standing before the second: ranked rows
+highest hybrid score first, and no unranked row before a ranked one -/
+def rankRel {S : Type} (le : S → S → Prop) : Option S → Option S → Prop
+  | some x, some y => le y x
+  | none, some _ => False
+  | _, none => True
+
+/-- `C06_rank_order`.  Whatever the index search returned — a plain ranking query, a composite with
+ONE sub-query, with many, any weights (negative ones included), any nesting — a request without
+explicit sort keys comes back with the ranked rows first, highest hybrid score first, and the rows
+matched only by filters after them.  (`searchParallel` still passes a single sub-query through
+unsorted, `C06_merge_single`; `Shard.SearchPoints` orders what it gets with a stable sort.)
+No hypothesis on the number of sub-queries or on the sub-result. -/
+theorem C06_rank_order {S : Type} (le : S → S → Prop) (docOf : Id → Doc)
+    (rankSorter : List (Res S) → List (Res S))
+    (hsorted : ∀ l, (rankSorter l).Pairwise (fun a b => le b.hybrid a.hybrid))
+    (sorter : List (Row S) → List (Row S)) (repaired : Bool) (r : SubResult S) (rq : Request)
+    (hs : rq.sort = []) (p : List (Row S))
+    (h : searchPoints docOf rankSorter sorter repaired r rq = .rows p) :
+    p.Pairwise (fun a b => rankRel le a.hybrid b.hybrid) := by
+  unfold searchPoints at h
+  generalize hf : (fun (e : Entry S) => (shape rq (docOf e.id)).map (fun d => (⟨e.id, e.hybrid, d⟩ : Row S))) = f at h
+  have hfh : ∀ e row, f e = .ok row → row.hybrid = e.hybrid := by
+    intro e row he
+    subst hf
+    simp only at he
+    cases hsh : shape rq (docOf e.id) with
+    | error _ => simp [hsh, Except.map] at he
+    | ok d => simp only [hsh, Except.map, Except.ok.injEq] at he; subst he; rfl
+  cases hm : mapExcept f (backfill ⟨r.set, rankSorter r.res⟩) with
+  | error e => simp [hm] at h
+  | ok rows =>
+    simp only [hm, hs, List.isEmpty_nil, if_true] at h
+    have hrows : rows.Pairwise (fun a b => rankRel le a.hybrid b.hybrid) := by
+      have hb : (backfill ⟨r.set, rankSorter r.res⟩).Pairwise (fun a b => rankRel le a.hybrid b.hybrid) := by
+        unfold backfill
+        rw [List.pairwise_append]
+        refine ⟨?_, ?_, ?_⟩
+        · rw [List.pairwise_map]; exact (hsorted r.res).imp (fun h => h)
+        · rw [List.pairwise_map]; exact List.pairwise_of_forall (fun _ _ => trivial)
+        · intro a ha b hb'
+          obtain ⟨_, _, rfl⟩ := List.mem_map.mp hb'
+          cases a.hybrid <;> trivial
+      exact mapExcept_pairwise f (·.hybrid) (·.hybrid) (rankRel le) hfh _ _ hm hb
+    have hsub : p.Sublist rows := by
+      cases repaired
+      · simp only [Bool.false_eq_true, if_false] at h
+        cases hp : pagePinned rows rq.off rq.lim with
+        | error e => simp [hp] at h
+        | ok q =>
+          simp only [hp, Outcome.rows.injEq] at h; subst h
+          exact goSlice_sublist _ _ _ _ hp
+      · simp only [if_true] at h
+        cases hp : pageRepaired rows rq.off rq.lim with
+        | error e => simp [hp] at h
+        | ok q =>
+          simp only [hp, Outcome.rows.injEq] at h; subst h
+          exact goSlice_sublist _ _ _ _ hp
+    exact List.Pairwise.sublist hsub hrows
+
+/-- the sort in `SearchPoints` is stable: it does not move anything when the index search returned
+its results in order already (weights ≥ 0, merged results).  Such a sorter exists: insertion sort. -/
+theorem C06_rank_sorter_exists (key : Int → Int) :
+    let c := fun (a b : Res Int) => cmpInt (-(key a.hybrid)) (-(key b.hybrid))
+    (∀ l, (isort c l).Perm l) ∧ (∀ l, (isort c l).Pairwise (fun a b => key b.hybrid ≤ key a.hybrid)) ∧
+    (∀ l, l.Pairwise (fun a b => key b.hybrid ≤ key a.hybrid) → isort c l = l) := by
+  intro c
+  refine ⟨fun l => isort_perm _ l, fun l => ?_, fun l hl => ?_⟩
+  · exact (isort_sorted (tpc_of_key (fun r : Res Int => -(key r.hybrid))) l).imp (by
+      intro a b hab
+      have := (cmpInt_le (-(key a.hybrid)) (-(key b.hybrid))).mp hab
+      omega)
+  · apply isort_id_of_sorted
+    exact hl.imp (by
+      intro a b hab
+      exact (cmpInt_le (-(key a.hybrid)) (-(key b.hybrid))).mpr (by omega))
+
+/-- ids and hybrid scores of an answer -/
+def outcomeRows {S : Type} : Outcome S → Option (List (Id × Option S))
+  | .rows p => some (p.map (fun x => (x.id, x.hybrid)))
+  | _ => none
+
+set_option maxRecDepth 8192 in
+/-- the witness of the former finding `rank-order-single-subquery-negative-weight`: `_or` with one
+ranking sub-query of negative weight.  `searchParallel` passes it through lowest hybrid first, for
+every sorter it might use; the request as a whole now comes back highest first. -/
+theorem C06_single_sub_repaired :
+    let leaf : SubResult Int := ⟨[1, 2], [⟨1, -2⟩, ⟨2, -1⟩]⟩
+    (∀ s1 : List (Res Int) → List (Res Int),
+      ¬ (searchParallel (· + ·) s1 true [leaf]).res.Pairwise (fun a b => b.hybrid ≤ a.hybrid)) ∧
+    (∀ s1 : List (Res Int) → List (Res Int),
+      outcomeRows (searchPoints (fun _ => []) (isort (fun a b => cmpInt (-a.hybrid) (-b.hybrid))) (fun l => l) true
+        (searchParallel (· + ·) s1 true [leaf]) ⟨[], [], 0, 0⟩) = some [(2, some (-1)), (1, some (-2))]) := by
+  refine ⟨?_, ?_⟩
+  · intro s1; rw [C06_merge_single]; simp
+  · intro s1; rw [C06_merge_single]; decide
 
 /-- back-fill: the ranked results first, in their order; then exactly the remaining ids of the id
 set, ascending; every id of the set once. -/
@@ -173,51 +262,59 @@ theorem C06_backfill {S : Type} (r : SubResult S) (hn : (r.res.map (·.id)).Nodu
 
 /-! ### select -/
 
-/-- `C06_select`.  Provided no selected path runs into a value of the stored document that is
-neither a map nor absent (`queryVal … ≠ error`), the select loop succeeds and
+/-- `C06_select`.  For every stored document and every select list without `"*"` the select loop
+succeeds and
 
 * every selected path that is present in the stored document comes back with exactly the stored value
   (whatever else was selected before or after it: colliding nested / parent paths included);
 * nothing else comes back: every path present in the answer is present in the stored document, and
-  every value that is not a rebuilt intermediate map is the stored value at that path. -/
-theorem C06_select (d : Doc) (ps : List (List String)) (hstar : ["*"] ∉ ps)
-    (hok : ∀ p ∈ ps, p ≠ [] ∧ queryVal (.map d) p ≠ .error ()) :
-    ∃ m, selectDoc d ps [] = .ok m ∧
-      (∀ p ∈ ps, ∀ u, queryVal (.map d) p = .ok (some u) → access m p = some u) ∧
-      (∀ π x, π ≠ [] → access m π = some x → ∃ y, queryVal (.map d) π = .ok (some y) ∧ (isMap x ∨ x = y)) := by
-  obtain ⟨m, hm, hinv⟩ := selectDoc_spec d ps [] [] ⟨faithful_nil _, by simp⟩ hstar hok
-  refine ⟨m, hm, ?_, hinv.faithful⟩
-  intro p hp u hu
-  exact hinv.selected p (by simp [hp]) u hu
+  every value that is not a rebuilt intermediate map is the stored value at that path.
 
-/-- `"*"` returns the document: when the star is reached (the paths before it being resolvable),
-the answer has exactly the top-level fields of the stored document with their stored values; what
-follows the star is ignored. -/
-theorem C06_select_star (d : Doc) (pre post : List (List String)) (hd : (d.map (·.1)).Nodup)
-    (hstar : ["*"] ∉ pre) (hok : ∀ p ∈ pre, p ≠ [] ∧ queryVal (.map d) p ≠ .error ()) :
-    ∃ m, selectDoc d (pre ++ ["*"] :: post) [] = .ok m ∧ ∀ k, lookup m k = lookup d k := by
-  obtain ⟨m0, hm0, hinv⟩ := selectDoc_spec d pre [] [] ⟨faithful_nil _, by simp⟩ hstar hok
-  have hgen : ∀ (ps : List (List String)) (acc : Doc) (m0 : Doc), selectDoc d ps acc = .ok m0 → ["*"] ∉ ps →
+A selected path that is absent — or that runs into a scalar, nil or array of THIS document — is simply
+not part of the answer (no hypothesis on the document any more). -/
+theorem C06_select (d : Doc) (ps : List (List String)) (hstar : ["*"] ∉ ps) (hne : ∀ p ∈ ps, p ≠ []) :
+    ∃ m, selectDoc d ps [] = .ok m ∧
+      (∀ p ∈ ps, ∀ u, access d p = some u → access m p = some u) ∧
+      (∀ π x, π ≠ [] → access m π = some x → ∃ y, access d π = some y ∧ (isMap x ∨ x = y)) := by
+  obtain ⟨m, hm, hinv⟩ := selectDoc_spec d ps [] [] ⟨faithful_nil _, by simp⟩ hstar hne
+  refine ⟨m, hm, ?_, ?_⟩
+  · intro p hp u hu
+    exact hinv.selected p (by simp [hp]) u (access_ok_query hu)
+  · intro π x hπ hx
+    obtain ⟨y, hy, hxy⟩ := hinv.faithful π x hπ hx
+    exact ⟨y, queryVal_ok_access hy, hxy⟩
+
+/-- the select loop with a star somewhere: what precedes the star is selected as above, then the
+whole document is decoded over it; what follows the star is ignored -/
+theorem selectDoc_star (d : Doc) (post : List (List String)) :
+    ∀ (ps : List (List String)) (acc m0 : Doc), selectDoc d ps acc = .ok m0 → ["*"] ∉ ps →
       selectDoc d (ps ++ ["*"] :: post) acc = .ok (overlay m0 d) := by
-    intro ps
-    induction ps with
-    | nil => intro acc m0 h _; simp only [selectDoc, Except.ok.injEq] at h; subst h; simp [selectDoc]
-    | cons p rest ih =>
-      intro acc m0 h hs
-      have hp : p ≠ ["*"] := fun h => hs (by simp [h])
-      have hrs : ["*"] ∉ rest := fun h => hs (List.mem_cons_of_mem _ h)
-      simp only [List.cons_append, selectDoc, hp, if_false] at h ⊢
-      cases hq : queryVal (.map d) p with
-      | error e => simp [hq] at h
-      | ok o =>
-        cases o with
-        | none => simp only [hq] at h ⊢; exact ih acc m0 h hrs
-        | some v =>
-          simp only [hq] at h ⊢
-          cases hsn : setNested acc p v with
-          | error e => simp [hsn] at h
-          | ok acc' => simp only [hsn] at h ⊢; exact ih acc' m0 h hrs
-  refine ⟨overlay m0 d, hgen pre [] m0 hm0 hstar, ?_⟩
+  intro ps
+  induction ps with
+  | nil => intro acc m0 h _; simp only [selectDoc, Except.ok.injEq] at h; subst h; simp [selectDoc]
+  | cons p rest ih =>
+    intro acc m0 h hs
+    have hp : p ≠ ["*"] := fun h => hs (by simp [h])
+    have hrs : ["*"] ∉ rest := fun h => hs (List.mem_cons_of_mem _ h)
+    simp only [List.cons_append, selectDoc, hp, if_false] at h ⊢
+    cases hq : queryVal (.map d) p with
+    | error e => simp only [hq] at h ⊢; exact ih acc m0 h hrs
+    | ok o =>
+      cases o with
+      | none => simp only [hq] at h ⊢; exact ih acc m0 h hrs
+      | some v =>
+        simp only [hq] at h ⊢
+        cases hsn : setNested acc p v with
+        | error e => simp [hsn] at h
+        | ok acc' => simp only [hsn] at h ⊢; exact ih acc' m0 h hrs
+
+/-- `"*"` returns the document: when the star is reached the answer has exactly the top-level fields
+of the stored document with their stored values; what follows the star is ignored. -/
+theorem C06_select_star (d : Doc) (pre post : List (List String)) (hd : (d.map (·.1)).Nodup)
+    (hstar : ["*"] ∉ pre) (hne : ∀ p ∈ pre, p ≠ []) :
+    ∃ m, selectDoc d (pre ++ ["*"] :: post) [] = .ok m ∧ ∀ k, lookup m k = lookup d k := by
+  obtain ⟨m0, hm0, hinv⟩ := selectDoc_spec d pre [] [] ⟨faithful_nil _, by simp⟩ hstar hne
+  refine ⟨overlay m0 d, selectDoc_star d post pre [] m0 hm0 hstar, ?_⟩
   intro k
   rw [lookup_overlay m0 d k hd]
   cases hl : lookup d k with
@@ -231,20 +328,74 @@ theorem C06_select_star (d : Doc) (pre post : List (List String)) (hd : (d.map (
       obtain ⟨y, hy, _⟩ := hinv.faithful [k] x (by simp) hacc
       simp [queryVal, hl] at hy
 
-/-- **the hypothesis of `C06_select` is needed**: one stored point whose `a` is a scalar makes the
-selection of `a.b` fail for the whole search, although another point has `a.b` (DecodedData of no
-point comes back). -/
-theorem C06_select_scalar_witness :
+/-- `C06_select_total`: selection never fails a request.  For every request whose select paths have
+no empty segment list, every stored document yields its data (`shape` succeeds), hence
+`Shard.SearchPoints` does not return a select error whatever the other returned points store. -/
+theorem C06_select_total {S : Type} (rq : Request) (hne : ∀ p ∈ rq.select, p ≠ []) :
+    (∀ d : Doc, ∃ m, shape rq d = .ok m) ∧
+    (∀ (docOf : Id → Doc) (rankSorter : List (Res S) → List (Res S)) (sorter : List (Row S) → List (Row S))
+       (repaired : Bool) (r : SubResult S),
+       (match searchPoints docOf rankSorter sorter repaired r rq with | .selectError => False | _ => True)) := by
+  have hshape : ∀ d : Doc, ∃ m, shape rq d = .ok m := by
+    intro d
+    unfold shape
+    split
+    · split
+      · exact ⟨[], rfl⟩
+      · -- split the list at the first star
+        have hsplit : ∀ ps : List (List String), (∀ p ∈ ps, p ≠ []) → ∃ m, selectDoc d ps [] = .ok m := by
+          intro ps hps
+          by_cases hst : ["*"] ∈ ps
+          · obtain ⟨pre, post, hpp, hpre⟩ : ∃ pre post, ps = pre ++ ["*"] :: post ∧ ["*"] ∉ pre := by
+              clear hps
+              induction ps with
+              | nil => simp at hst
+              | cons q rest ih =>
+                by_cases hq : q = ["*"]
+                · exact ⟨[], rest, by simp [hq], by simp⟩
+                · have : ["*"] ∈ rest := by
+                    rcases List.mem_cons.mp hst with h | h
+                    · exact absurd h.symm hq
+                    · exact h
+                  obtain ⟨pre, post, h1, h2⟩ := ih this
+                  exact ⟨q :: pre, post, by simp [h1], by
+                    intro hm; rcases List.mem_cons.mp hm with h | h
+                    · exact hq h.symm
+                    · exact h2 h⟩
+            subst hpp
+            obtain ⟨m0, hm0, _⟩ := selectDoc_spec d pre [] [] ⟨faithful_nil _, by simp⟩ hpre
+              (fun p hp => hps p (by simp [hp]))
+            exact ⟨_, selectDoc_star d post pre [] m0 hm0 hpre⟩
+          · obtain ⟨m, hm, _⟩ := selectDoc_spec d ps [] [] ⟨faithful_nil _, by simp⟩ hst hps
+            exact ⟨m, hm⟩
+        exact hsplit rq.select hne
+    · split
+      · exact ⟨[], rfl⟩
+      · exact ⟨d, rfl⟩
+  refine ⟨hshape, ?_⟩
+  intro docOf rankSorter sorter repaired r
+  unfold searchPoints
+  obtain ⟨rows, hrows, _⟩ := mapExcept_ok
+    (fun (e : Entry S) => (shape rq (docOf e.id)).map (fun d => (⟨e.id, e.hybrid, d⟩ : Row S)))
+    (backfill ⟨r.set, rankSorter r.res⟩)
+    (fun e _ => by obtain ⟨m, hm⟩ := hshape (docOf e.id); exact ⟨⟨e.id, e.hybrid, m⟩, by rw [hm]; rfl⟩)
+  rw [hrows]
+  simp only
+  generalize (if repaired = true then _ else _) = pg
+  cases pg <;> simp
+
+/-- the witness of the former finding `select-nested-through-scalar`: one point has `a.b`, another
+stores a scalar under `a`.  Selecting `a.b` now answers both: the first with its value, the second
+without the path. -/
+theorem C06_select_scalar :
     let d1 : Doc := [("a", .map [("b", .str [0x78])])]
     let d2 : Doc := [("a", .str [0x73])]
     let rq : Request := { select := [["a", "b"]], sort := [], off := 0, lim := 10 }
-    queryVal (.map d1) ["a", "b"] = .ok (some (.str [0x78])) ∧
-    (∃ m, shape rq d1 = .ok m ∧ access m ["a", "b"] = some (.str [0x78])) ∧
-    (match mapExcept (shape rq) [d1, d2] with | .error _ => True | .ok _ => False) := by
-  refine ⟨by simp [queryVal, lookup], ⟨[("a", .map [("b", .str [0x78])])], ?_, ?_⟩, ?_⟩
-  · simp [shape, needDecode, selectDoc, queryVal, lookup, setNested, put]
-  · simp [access, accessVal, lookup]
+    queryVal (.map d2) ["a", "b"] = .error () ∧
+    (∃ m1, mapExcept (shape rq) [d1, d2] = .ok [m1, []] ∧ access m1 ["a", "b"] = some (.str [0x78])) := by
+  refine ⟨by simp [queryVal, lookup], ⟨[("a", .map [("b", .str [0x78])])], ?_, ?_⟩⟩
   · simp [mapExcept, shape, needDecode, selectDoc, queryVal, lookup, setNested, put]
+  · simp [access, accessVal, lookup]
 
 /-! ### comparator, sorting -/
 
@@ -301,8 +452,8 @@ theorem C06_sort_ties (opts : List SortOpt) (a b : Doc) :
 /-- within one `reflect.Kind` the comparator is the order of the values: integers by value, floats
 by `cmp.Compare` (IEEE order, NaN first), strings byte-wise -/
 theorem C06_cmp_same_kind :
-    (∀ w x y, cmpAny (.int w x) (.int w y) = cmpInt x y) ∧
-    (∀ w x y, cmpAny (.uint w x) (.uint w y) = cmpInt x y) ∧
+    (∀ w x y, cmpAny (.int w x) (.int w y) = cmpInt x.toInt y.toInt) ∧
+    (∀ w x y, cmpAny (.uint w x) (.uint w y) = cmpInt x.toNat y.toNat) ∧
     (∀ x y, cmpAny (.f64 x) (.f64 y) = cmpF64 x y) ∧
     (∀ x y, cmpAny (.f32 x) (.f32 y) = cmpF32 x y) ∧
     (∀ x y, cmpAny (.str x) (.str y) = cmpStr x y) := by
@@ -322,15 +473,61 @@ theorem C06_cmp_same_kind :
   · intro x y; simp [cmpAny, kindOf, asF32]
   · intro x y; simp [cmpAny, kindOf, asStr]
 
-/-- **but numbers of different encoded width are ordered by width, not by value**: msgpack decodes
-`5` (positive fixint) to `int8` and `-200` to `int16`, and `CompareAny` puts every `int8` before
-every `int16`; likewise `300` (`uint16`) after `2^40` (`int64`), and the float `1.5` after every
-integer. -/
-theorem C06_cmp_cross_kind_witness :
-    cmpAny (.int 8 5) (.int 16 (-200)) = -1 ∧
-    cmpAny (.int 64 (2 ^ 40)) (.uint 16 300) = -1 ∧
-    cmpAny (.uint 8 200) (.f64 0x3ff8000000000000#64) = -1 := by
-  refine ⟨by decide, by decide, by decide⟩
+/-- `C06_cmp_numeric`: on numbers `CompareAny` IS the numeric order, whatever the two kinds — any
+integer width, signed or unsigned, float32 or float64.  `numOrd` is the exact value scaled by `2^1074`
+(an integer for every finite float64; `±Inf` beyond every finite value; NaN below everything, as
+`cmp.Compare` has it), so nothing is rounded: `2^53 + 1` (int64) is greater than `2^53` (float64),
+`2^63 − 1` (int64) is less than `2^63` (uint64 or float64), `−1` is less than every uint64. -/
+theorem C06_cmp_numeric (a b : Val) (x y : Num) (ha : numOf a = some x) (hb : numOf b = some y) :
+    cmpAny a b = cmpInt (numOrd x) (numOrd y) := cmpAny_num ha hb
+
+/-- integers among themselves: by value across all widths and both signednesses -/
+theorem C06_cmp_integers (w w' : Nat) (x y : BitVec 64) :
+    cmpAny (.int w x) (.int w' y) = cmpInt x.toInt y.toInt ∧
+    cmpAny (.int w x) (.uint w' y) = cmpInt x.toInt y.toNat ∧
+    cmpAny (.uint w x) (.int w' y) = cmpInt x.toNat y.toInt ∧
+    cmpAny (.uint w x) (.uint w' y) = cmpInt x.toNat y.toNat := by
+  refine ⟨?_, ?_, ?_, ?_⟩ <;> rw [C06_cmp_numeric _ _ _ _ rfl rfl] <;> exact cmpInt_mul _ _
+
+/-- the float order used above agrees with the IEEE order on bit patterns of `Base/Float.lean`
+(sign-magnitude keys): the exact value is strictly increasing in the key -/
+theorem C06_float_value_order :
+    (∀ x y : BitVec 64, F64.key x < F64.key y ↔ scaled64 x < scaled64 y) ∧
+    (∀ x y : BitVec 32, F32.key x < F32.key y ↔ scaled32 x < scaled32 y) :=
+  ⟨key64_lt_iff, key32_lt_iff⟩
+
+set_option maxRecDepth 4096 in
+/-- the witnesses of the former finding `sort-numeric-cross-kind`, now in numeric order; and values
+that a comparison through float64 would merge -/
+theorem C06_cmp_cross_kind :
+    cmpAny (.int 8 5) (.int 16 (-200)) = 1 ∧
+    cmpAny (.int 64 (2 ^ 40)) (.uint 16 300) = 1 ∧
+    cmpAny (.uint 8 200) (.f64 0x3ff8000000000000#64) = 1 ∧                 -- 200 > 1.5
+    cmpAny (.int 64 (2 ^ 53 + 1)) (.f64 0x4340000000000000#64) = 1 ∧        -- 2^53 + 1 > 2^53 (float64)
+    cmpAny (.int 64 (2 ^ 63 - 1)) (.f64 0x43e0000000000000#64) = -1 ∧       -- MaxInt64 < 2^63 (float64)
+    cmpAny (.uint 64 (2 ^ 64 - 1)) (.int 8 (-1)) = 1 ∧                      -- MaxUint64 > −1
+    cmpAny (.int 64 1700000000000000001) (.int 64 1700000000000000002) = -1 ∧
+    cmpAny (.f32 0x3f000000#32) (.f64 0x3fe0000000000000#64) = 0 ∧          -- 0.5 (float32) = 0.5 (float64)
+    cmpAny (.int 8 0) (.f64 0x8000000000000000#64) = 0 := by                -- 0 = −0.0
+  refine ⟨by decide, by decide, by decide, by decide, by decide, by decide, by decide, by decide, by decide⟩
+
+/-- hence explicit sort keys order numbers by value: in any list ordered by the comparator, two rows
+that both carry a number under the first key stand in numeric order (reversed for `descending`) -/
+theorem C06_sort_numeric (o : SortOpt) (rest : List SortOpt) (l : List Doc)
+    (h : l.Pairwise (fun a b => sortCmp (o :: rest) a b ≤ 0)) :
+    l.Pairwise (fun a b => ∀ x y nx ny, access a o.path = some x → access b o.path = some y →
+      numOf x = some nx → numOf y = some ny →
+      if o.desc then numOrd ny ≤ numOrd nx else numOrd nx ≤ numOrd ny) := by
+  apply (C06_missing_last o rest l h).imp
+  intro a b hab x y nx ny hx hy hnx hny
+  have := hab.2 x y hx hy
+  cases hd : o.desc
+  · simp only [hd, Bool.false_eq_true, if_false] at this ⊢
+    rw [C06_cmp_numeric x y nx ny hnx hny] at this
+    exact (cmpInt_le _ _).mp this
+  · simp only [hd, if_true] at this ⊢
+    rw [C06_cmp_numeric y x ny nx hny hnx] at this
+    exact (cmpInt_le _ _).mp this
 
 /-! ### offset / limit -/
 
@@ -405,12 +602,29 @@ example : (backfill (searchParallel (· + ·) exSortRes true exSubs)).map (fun e
 /-- a stored document with a nested map and a scalar, colliding select paths -/
 def exDoc : Doc := [("a", .map [("b", .int 8 1), ("c", .str [0x79])]), ("n", .int 16 300), ("z", .nil)]
 
-example : ["*"] ∉ [["a", "b"], ["a"], ["a", "c"], ["q"], ["n"]] ∧
-    ∀ p ∈ [["a", "b"], ["a"], ["a", "c"], ["q"], ["n"]], p ≠ [] ∧ queryVal (.map exDoc) p ≠ .error () := by
-  refine ⟨by decide, ?_⟩
-  intro p hp
-  simp only [List.mem_cons, List.not_mem_nil, or_false] at hp
-  rcases hp with rfl | rfl | rfl | rfl | rfl <;> simp [queryVal, lookup, exDoc]
+/-- the hypotheses of `C06_select` on a list that also runs into a scalar (`n.x`) and into nil (`z.q`);
+the answer computed: the scalar-crossing paths are simply absent -/
+example : ["*"] ∉ [["a", "b"], ["n", "x"], ["a"], ["z", "q"], ["a", "c"], ["q"], ["n"]] ∧
+    ∀ p ∈ [["a", "b"], ["n", "x"], ["a"], ["z", "q"], ["a", "c"], ["q"], ["n"]], p ≠ [] := by decide
+
+example : (match selectDoc exDoc [["a", "b"], ["n", "x"], ["z", "q"], ["q"], ["n"]] [] with
+    | .ok m => access m ["a", "b"] = some (.int 8 1) ∧ access m ["n"] = some (.int 16 300) ∧ access m ["n", "x"] = none ∧
+        lookup m "z" = none ∧ m.length = 2
+    | .error _ => False) := by
+  simp [selectDoc, queryVal, lookup, exDoc, setNested, put, access, accessVal]
+
+/-- the hypothesis of `C06_rank_order` is satisfiable together with stability: `C06_rank_sorter_exists`;
+a leaf in its own order with a negative weight, a filter-only point behind it -/
+example : outcomeRows (searchPoints (fun _ => []) (isort (fun a b => cmpInt (-a.hybrid) (-b.hybrid))) (fun l => l) true
+    (⟨[1, 2, 3, 7], [⟨1, -2⟩, ⟨3, -2⟩, ⟨2, -1⟩]⟩ : SubResult Int) ⟨[], [], 0, 0⟩)
+    = some [(2, some (-1)), (1, some (-2)), (3, some (-2)), (7, none)] := by decide
+
+set_option maxRecDepth 8192 in
+/-- the hypothesis of `C06_sort_numeric`: a list in comparator order whose first key holds numbers of
+five different kinds, two of them equal in value -/
+example : [[("n", Val.int 16 (-200))], [("n", .f64 0x3ff8000000000000#64)], [("n", .int 8 5)], [("n", .f32 0x40a00000#32)],
+      [("n", .uint 8 200)], [("n", .int 64 (2 ^ 40))], [("q", .nil)]].Pairwise
+    (fun a b => sortCmp [⟨["n"], false⟩] a b ≤ 0) := by decide
 
 example : (exDoc.map (·.1)).Nodup := by decide
 
